@@ -214,6 +214,24 @@ def coverage_zero_actions(out):
     return zero
 
 
+def tlc_printed(line, tag):
+    """Decodes a line printed by TLC's PrintT(tag \\o ToJson(x)): returns x, or None if the line is not
+    such a line. TLC prints the string as a quoted literal with \\" and \\\\ escapes."""
+    k = line.find('"' + tag + " ")
+    if k < 0:
+        k = line.find(tag + " ")
+        if k < 0:
+            return None
+        return json.loads(line[k + len(tag) + 1:].strip())
+    lit = line[k:].strip()
+    try:
+        text = json.loads(lit)
+    except Exception:
+        # fall back to naive unescaping
+        text = lit.strip('"').replace('\\"', '"')
+    return json.loads(text[len(tag) + 1:])
+
+
 # ------------------------------------------------------------------ trace validation
 def project(traces, keep=None, drop_fields=("t", "goroutines")):
     """Pure projection of recorded traces for TLC: optionally keep only some event kinds and drop
@@ -292,11 +310,9 @@ def validate_traces(trace_module, files, traces, invariants=("WellFormed",), con
         if m:
             states += int(m.group(2))
         for line in out.splitlines():
-            k = line.find("VIOLS ")
-            if k >= 0:
-                js = line[k + 6:].strip().strip('"')
+            if "VIOLS " in line:
                 try:
-                    viols += json.loads(js.replace('\\"', '"')) if js.startswith('[{\\') else json.loads(js)
+                    viols += tlc_printed(line, "VIOLS") or []
                 except Exception:
                     raise Infra("cannot parse VIOLS line: " + line[:500])
         mi = RE_INV.search(out)
